@@ -200,6 +200,28 @@ def e2_all(ctx, n):
             ctx.count("E2_valid_routes", "unsolved")
 
 
+def e2_greedy_bound(ctx, n):
+    """a k-model never returns more than k routes, also when the greedy shortcut finds more than k paths"""
+    import flowpaths as fp
+    for i in range(n):
+        rng = ctx.rng("greedy", i)
+        G, paths, ws, is_int = gen2.rand_flow_dag(rng, nmax=6, npaths=(2, 4))
+        g = len(fp.stDAG(G).decompose_using_max_bottleneck("flow")[0])
+        for k in sorted({max(1, g - 1), g}):
+            try:
+                m = fp.kFlowDecomp(G, flow_attr="flow", k=k, weight_type=int if is_int else float, solver_options={"threads": zoo.THREADS})
+                m.solve()
+            except Exception as e:
+                ctx.report("kFlowDecomp raised " + repr(e), {"edges": [[u, v, d] for u, v, d in G.edges(data=True)], "k": k}); continue
+            ctx.case(["greedy", sorted((u, v, d["flow"]) for u, v, d in G.edges(data=True)), k], nontrivial=g >= 2)
+            ctx.count("E2_k_bound_with_greedy", "cases")
+            if m.is_solved():
+                sol = m.get_solution()
+                if len(sol["paths"]) > k or len(sol["paths"]) != len(sol["weights"]):
+                    ctx.report(f"kFlowDecomp(k={k}) returned {len(sol['paths'])} paths / {len(sol['weights'])} weights",
+                               {"edges": [[u, v, d] for u, v, d in G.edges(data=True)], "k": k, "solution": sol})
+
+
 def run(ctx):
     ctx.rule = ("E3a: random DAG/cyclic graphs with additional starts/ends; E3b: 0/1 layer assignments from random s-t paths of random "
                 "DAGs (incl. empty layers); E1: kPathCover LPs; E2: every exported model class on random small instances (edge and "
@@ -208,3 +230,4 @@ def run(ctx):
     e3_decode(ctx, ctx.budget(200, 5000))
     e1_kpc(ctx, ctx.budget(60, 1500))
     e2_all(ctx, ctx.budget(240, 6000))
+    e2_greedy_bound(ctx, ctx.budget(80, 2000))
